@@ -196,8 +196,13 @@ let eval (fields : string list) (fail : string -> string -> unit) (bump : string
          | M.Ok r -> "ok " ^ bits_s (M.bf_iter r) | M.Err -> "err" | M.Panic -> "panic" in
        if i <> res then fail "corr.bf.resize" ("model=" ^ i)
      | _ -> fail "corr.bf.resize" "operand not representable")
-  | ["bfwithlen"; hex; l; res] ->
+  | "bfwithlen" :: hex :: l :: res :: rest ->
     let bs = bytes_of_hex hex in
+    (* C01: a value this constructor returns is a value of the type: its encoding decodes back to it *)
+    (match rest with
+     | ["fail"] -> fail "oracle.C01" "a value built by from_bytes_with_len does not survive encode / decode"
+     | ["panic"] -> fail "oracle.C01" "encoding or decoding a value built by from_bytes_with_len panics"; fail "oracle.C05" "panic"
+     | _ -> ());
     let a = match M.a_from_bytes_with_len bs (n_of_dec l) with
       | M.Ok r -> "ok " ^ bits_s r | M.Err -> "err" | M.Panic -> "panic" in
     let i = match M.bd_from_bytes_with_len bs (n_of_dec l) with
